@@ -282,10 +282,12 @@ def applyRebuilds (e : Exec) : Exec :=
     vec := if e.pVec then (if c.vec == .ok then .ok else .missing) else c.vec }
   { mem := { e.mem with c := c }, pTime := false, pLex := false, pVec := false }
 
-/-- `Memvid::verify(path, deep)`: none = it cannot open the file (Err), some b = overall Passed? -/
+/-- `Memvid::verify(path, deep)`: none = it cannot open the file read-only (no valid footer, TOC checksum, WAL
+    region) and returns Err, some b = overall Passed?  (A corrupt time index fails the check when the damage changes
+    the entry count, the order or the framing; the model takes the strict reading: corrupt = Failed.) -/
 def verify (c : Cond) : Option Bool :=
-  if !(footerValid c && c.tocSum) then none
-  else some (c.time != .corrupt && !c.hasPending && c.walOk)
+  if !(footerValid c && c.tocSum && c.walOk) then none
+  else some (c.time != .corrupt && !c.hasPending)
 
 def runActions (e : Exec) : List Action → Exec × Bool
   | [] => (e, false)
